@@ -35,15 +35,12 @@ def dft_upsample(
     du = np.ceil(1.5 * up).astype(int)
     row = np.arange(-du, du + 1)
     col = np.arange(-du, du + 1)
-    r_shift = shift[0] - M // 2
-    c_shift = shift[1] - N // 2
+    # inverse DFT of F evaluated on the upsampled grid centred on `shift`
+    k_row = xp.fft.ifftshift(xp.arange(M)) - M // 2
+    k_col = xp.fft.ifftshift(xp.arange(N)) - N // 2
 
-    kern_row = np.exp(
-        -2j * np.pi / (M * up) * np.outer(row, xp.fft.ifftshift(xp.arange(M)) - M // 2 + r_shift)
-    )
-    kern_col = np.exp(
-        -2j * np.pi / (N * up) * np.outer(xp.fft.ifftshift(xp.arange(N)) - N // 2 + c_shift, col)
-    )
+    kern_row = np.exp(2j * np.pi / (M * up) * np.outer(row + shift[0] * up, k_row))
+    kern_col = np.exp(2j * np.pi / (N * up) * np.outer(k_col, col + shift[1] * up))
     return xp.real(kern_row @ F @ kern_col)
 
 
@@ -142,7 +139,8 @@ def cross_correlation_shift(
         except (IndexError, ValueError):
             dxf = dyf = 0.0
 
-        shifts = np.array([x0, y0]) + (np.array(peak) - upsample_factor) / upsample_factor
+        center = np.ceil(1.5 * upsample_factor)  # index of `shift` in the upsampled patch
+        shifts = np.array([x0, y0]) + (np.array(peak) - center) / upsample_factor
         shifts += np.array([dxf, dyf]) / upsample_factor
 
     shifts = (shifts + 0.5 * np.array(cc.shape)) % cc.shape - 0.5 * np.array(cc.shape)
